@@ -224,7 +224,16 @@ func c15ErrorsProp(rt *rapid.T) {
 		for m := rapid.IntRange(1, 3).Draw(rt, "m"); m > 0; m-- {
 			p := rapid.IntRange(0, n-1).Draw(rt, "pos")
 			var junk string
-			switch rapid.IntRange(0, 4).Draw(rt, "junk-kind") {
+			switch rapid.IntRange(0, 5).Draw(rt, "junk-kind") {
+			case 5: // collides with a list word of this language under a common 32-bit hash
+				junk = "notaword#"
+				for _, x := range gen.HaveLookalikes() {
+					if x.Lang == l && rapid.Bool().Draw(rt, "this-one") {
+						junk = x.Token
+						cov.Class("hash-lookalike-token")
+						break
+					}
+				}
 			case 0:
 				junk = ref.Golden(gen.Lang().Draw(rt, "other"))[rapid.IntRange(0, 2047).Draw(rt, "oi")]
 			case 1:
